@@ -169,6 +169,10 @@ func (b *Builder) structStr(t *types.Struct) string {
 			repr = append(repr, ' ')
 		}
 		repr = append(repr, b.realStr(f.Type())...)
+		if tag := t.Tag(i); tag != "" {
+			repr = append(repr, ' ')
+			repr = append(repr, strconv.Quote(tag)...)
+		}
 	}
 	if n > 0 {
 		repr = append(repr, ' ')
